@@ -318,6 +318,16 @@ func sizeTags(s *vt.Sched) (map[int]sizeTag, map[int]bool) {
 	return tags, covered
 }
 
+// k2end: thread t takes no further step after position idx (the episode was cut there)
+func k2end(s *vt.Sched, idx, t int) bool {
+	for k := idx + 1; k < len(s.Log); k++ {
+		if s.Log[k].Tid == t && s.Log[k].Kind != "leave" && s.Log[k].Kind != "enter" && !strings.HasPrefix(s.Log[k].Kind, "plain") {
+			return false
+		}
+	}
+	return true
+}
+
 func projectDisp(s *vt.Sched, j int, qid string) ([]string, bool) {
 	var out []string
 	emit := func(l string) { out = append(out, l) }
@@ -338,8 +348,6 @@ func projectDisp(s *vt.Sched, j int, qid string) ([]string, bool) {
 	stacks := map[int][]string{}
 	cur := 0
 	runner := -1
-	guardA := map[int]string{}
-	guardC := map[int]string{}
 	// structure of the barrier code, checked here because the theorems assume it:
 	// WaitUntilFinished evaluates its condition holding the worker mutex, reads the queue lengths
 	// before curProcessing; Broadcast is issued under the worker mutex
@@ -418,13 +426,38 @@ func projectDisp(s *vt.Sched, j int, qid string) ([]string, bool) {
 			up := v == cur+1
 			cur = v
 			if up {
-				if guardA[t] == "" || guardC[t] == "" {
-					emit("? reserve without a guard evaluation by the same thread")
-				} else {
-					emit("reserve " + guardA[t] + " " + guardC[t])
+				// the limit check that follows the reservation: the same thread's next load of
+				// the concurrency word inside processNextJob
+				c := -1
+				for k := idx + 1; k < len(s.Log); k++ {
+					e2 := s.Log[k]
+					if e2.Tid != t {
+						continue
+					}
+					s2 := siteTab[e2.Site]
+					if s2.Field == "concurrency" && e2.Kind == "load" && s2.Func == "worker.processNextJob" {
+						c, _ = strconv.Atoi(e2.Val)
+						break
+					}
+					if s2.Field == "curProcessing" || (s2.Field == "status" && e2.Kind == "load") {
+						break // no limit check before the thread's next accounting step
+					}
 				}
-				guardA[t], guardC[t] = "", ""
-				tstate[t] = tReserved
+				switch {
+				case fn != "worker.processNextJob":
+					emit("? curProcessing incremented outside processNextJob at " + si.Name)
+				case c < 0 && k2end(s, idx, t):
+					emit(fmt.Sprintf("reserve %d %d", v, v)) // the episode ended right after the Add
+					tstate[t] = tReserved
+				case c < 0:
+					emit("? reservation not followed by a check against the concurrency limit")
+				case v <= c:
+					emit(fmt.Sprintf("reserve %d %d", v, c))
+					tstate[t] = tReserved
+				default:
+					emit(fmt.Sprintf("reserve %d %d", v, c))
+					tstate[t] = tDoomed
+				}
 				continue
 			}
 			if fn == "worker.processNextJob" {
@@ -453,9 +486,6 @@ func projectDisp(s *vt.Sched, j int, qid string) ([]string, bool) {
 				}
 			}
 		case si.Field == "curProcessing" && ev.Kind == "load":
-			if fn == "worker.goEventLoop" {
-				guardA[t] = ev.Val
-			}
 			if fn == "worker.WaitUntilFinished" {
 				if wufStatus[t] == "1" && !wufSeenLen[t] {
 					emit("? WaitUntilFinished read curProcessing before the queue lengths (a job being dispatched is then in neither)")
@@ -463,8 +493,6 @@ func projectDisp(s *vt.Sched, j int, qid string) ([]string, bool) {
 				wufStatus[t] = ""
 			}
 			emit("curload " + ev.Val)
-		case si.Field == "concurrency" && ev.Kind == "load" && fn == "worker.goEventLoop":
-			guardC[t] = ev.Val
 		case si.Field == "curProcessing":
 			emit("? " + ev.Kind + " on curProcessing at " + si.Name)
 		case si.Field == "status" && strings.HasPrefix(fn, "worker.") && ev.Kind == "store":
@@ -597,6 +625,7 @@ func writeWakeSlices(w *bufio.Writer, s *vt.Sched, tag string) int {
 		}{idx, text})
 	}
 	isLoop := map[int]bool{}
+	staleLoop := map[int]bool{}
 	closedChans := map[int]bool{}
 	conc0 := ""
 	cur := 0
@@ -629,8 +658,10 @@ func writeWakeSlices(w *bufio.Writer, s *vt.Sched, tag string) int {
 			}
 			continue
 		}
+		// an event loop whose signal channel has been closed (Stop, Restart) is no longer THE event
+		// loop of the model: what it still does (a reservation it hands back) are steps of another thread
 		actor := "other"
-		if isLoop[t] {
+		if isLoop[t] && !staleLoop[t] {
 			actor = "loop"
 		}
 		switch {
@@ -675,6 +706,9 @@ func writeWakeSlices(w *bufio.Writer, s *vt.Sched, tag string) int {
 			add(idx, "krecv")
 		case ev.Kind == "close" && si.Field == "eventLoopSignal":
 			closedChans[ev.Obj] = true
+			for lt := range isLoop {
+				staleLoop[lt] = true
+			}
 			add(idx, "kclose")
 		}
 	}
